@@ -336,8 +336,17 @@ def run_workers(ctx, mode, specs, configs, batch, tag):
         # function of (hash seed, allocation noise) alone, so a configuration replays exactly
         p = subprocess.run(NO_ASLR + [sys.executable, os.path.join(os.path.dirname(HERE), 'c20_worker.py'), jf, of],
                            env=env, capture_output=True, text=True, timeout=3000)
-        if p.returncode != 0:
-            raise RuntimeError('worker failed (%s): %s' % (jf, p.stderr[-1500:]))
+        if p.returncode != 0 or not os.path.exists(of):
+            # one retry (transient: killed under memory pressure, ...); then every design of the batch is
+            # reported as a worker error instead of aborting the whole run
+            p = subprocess.run(NO_ASLR + [sys.executable, os.path.join(os.path.dirname(HERE), 'c20_worker.py'), jf, of],
+                               env=env, capture_output=True, text=True, timeout=3000)
+        if p.returncode != 0 or not os.path.exists(of):
+            with open(jf) as f:
+                job_ = json.load(f)
+            out = {'results': [{'key': sp['key'], 'worker_error': 'worker process failed twice (rc=%s): %s'
+                                % (p.returncode, p.stderr[-400:])} for sp in job_['designs']]}
+            return cfg_, out
         with open(of) as f:
             out = json.load(f)
         os.remove(jf)
@@ -685,6 +694,9 @@ def search_exports(ctx, exp_res, textdir, specs):
         key = spec['key']
         runs = [(cfg, exp_res[cfg][key]) for cfg in sorted(exp_res) if key in exp_res[cfg]]
         errs = [(cfg, r) for cfg, r in runs if 'worker_error' in r]
+        if errs and 'worker process failed twice' in errs[0][1]['worker_error']:
+            ctx.model_mismatch('harness: %s' % errs[0][1]['worker_error'][:300], {'design': spec, 'config': list(errs[0][0])})
+            continue
         if errs:
             ctx.spec_violation('export-raises', 'building / exporting design %s raised: %s' % (key, errs[0][1]['worker_error'][-400:]),
                                {'design': spec, 'config': list(errs[0][0])})
@@ -823,6 +835,8 @@ def search_exports(ctx, exp_res, textdir, specs):
                                        '(hash seed, allocation noise, call order) configurations'
                                        % (ex, why, key, len(byhash), len(runs)), rep)
         ctx.count('fastsim_equals_sim(informational, C02)', all(r.get('fast_equals_sim') for _, r in runs))
+        if any(r.get('compiled_unavailable') for _, r in runs):
+            ctx.count('compiled_simulation_unavailable', runs[0][1].get('compiled_unavailable', '')[:60])
         # informational: exporters outside the property's byte-identical list
         for ex in sorted(r0.get('extra_sha', {})):
             ctx.count('distinct_texts(informational):' + ex, len({r['extra_sha'][ex] for _, r in runs}))
